@@ -114,7 +114,8 @@ def _site(cfg):
         o = ','.join('%s=%s' % kv for kv in sorted(cfg['opt'].items()) if kv[0] != 'lam')
         return '%s(%s)[%s%s]' % (cfg['name'], o, _space_kind(cfg['space']), sk)
     if k == 'derived2':
-        return '%s.%s.%s.proximal' % (cfg['name'], cfg['der'][0], cfg['der'][1])
+        return '%s.%s.%s.proximal[%s]' % (cfg['name'], cfg['der'][0], cfg['der'][1],
+                                          _space_kind(cfg['space']))
     if k == 'sepsum':
         return 'SeparableSum(%s,%s).proximal[sigma=%s]' % (cfg['f1'], cfg['f2'], cfg['sk'])
     if k == 'defaultconj2':
@@ -499,7 +500,12 @@ def _is_indicator(cfg):
 
 
 def _nonconvex_rejection(cfg, e):
-    return False
+    """A documented, explicit refusal: FunctionalLeftScalarMult.proximal raises ValueError
+    ('... scaled with a negative value ... is not well-defined') for every negative scalar, also
+    where the scaled functional happens to be convex (-0.5 * ZeroFunctional, reached through the
+    rewrite of f(a x) for linear f).  C07 speaks about the operator proximal() returns, not about
+    which functionals get one: a clean refusal is not judged."""
+    return isinstance(e, ValueError) and 'not well-defined' in str(e)
 
 
 def trace_functions():
